@@ -53,7 +53,8 @@ def main(ctx):
         jobs = []
         for role in ("server", "client"):
             for fbd in (False, True):
-                for kind in ("frame", "message", "both"):
+                # "both2": a frame limit of L below a message limit of 4L
+                for kind in ("frame", "message", "both", "both2"):
                     for L in LIMITS:
                         jobs.append({"part": "recv", "role": role, "fbd": fbd, "kind": kind,
                                      "limit": L, "tier": tier, "compress": False})
@@ -84,10 +85,12 @@ def _endpoint(a, compress=None, extra_opts=None):
     from harness import ws
     opts = {"failByDrop": a.get("fbd", False)}
     kind, L = a.get("kind"), a.get("limit")
-    if kind in ("frame", "both"):
+    if kind in ("frame", "both", "both2"):
         opts["maxFramePayloadSize"] = L
     if kind in ("message", "both"):
         opts["maxMessagePayloadSize"] = L
+    if kind == "both2":
+        opts["maxMessagePayloadSize"] = 4 * L
     opts.update(extra_opts or {})
     return ws.open_endpoint(a["role"], opts, compress=compress)
 
@@ -120,9 +123,11 @@ def _violating_frame(kind, L, lens):
     total = 0
     for i, n in enumerate(lens):
         total += n
-        if kind in ("frame", "both") and n > L:
+        if kind in ("frame", "both", "both2") and n > L:
             return i
         if kind in ("message", "both") and total > L:
+            return i
+        if kind == "both2" and total > 4 * L:
             return i
     return None
 
